@@ -556,7 +556,18 @@ def r_canvas_state(rule, root=None):
             continue
         n += 1
         t = str(A.ftxt(f["body"])).strip("{}")
-        if re.fullmatch(r"self\.screen_to_world\(\)\.transform_point\(&\w+\.cast(?:::<f32>)?\(\)\)", t):
+        if not re.fullmatch(r"self\.screen_to_world\(\)\.transform_point\(&\w+\.cast(?:::<f32>)?\(\)\)", t):
+            # through naming lets: `let mat = self.screen_to_world(); let q = p.cast::<f32>(); mat.transform_point(&q)`
+            lets_ = {A.binding_name(l_["pat"]): str(A.ftxt(l_["init"])) for l_ in A.find(f["body"], "Let") if l_.get("init") is not None and A.binding_name(l_["pat"]) and not l_["pat"].get("mut")}
+            tail_ = None
+            for leaf_, _cs in A.result_cases(f["body"]):
+                tail_ = str(A.ftxt(leaf_))
+            if tail_ is not None:
+                for _ in range(3):
+                    for n_, v_ in lets_.items():
+                        tail_ = re.sub(r"(?<![\w.])%s(?![\w(])" % re.escape(n_), lambda _m: v_, tail_)
+                t = tail_
+        if re.fullmatch(r"self\.screen_to_world\(\)\.transform_point\(&\(?\w+\.cast(?:::<f32>)?\(\)\)?\)", t):
             rule.ok("%s::transform_point is screen_to_world() applied to the point" % ((f.get("_owner") or {}).get("self_ty")), file=REG, line=f["ln"])
         else:
             rule.bad("region|transform_point|%s" % ((f.get("_owner") or {}).get("self_ty") or "?"), "transform_point must apply `self.screen_to_world()`: the renderers sample through that matrix, and a second formula for the same map (integer halving of an odd size, say) puts the cursor half a pixel from what is drawn under it", A.where(REG, f))
